@@ -116,7 +116,7 @@ def sites(objs):
 def fault_values(num):
     from specs.pdfgen import Name, Ref
     return [("int0", 0), ("negative", -7), ("huge", 2 ** 40), ("real", 1.5), ("string", b"str"), ("name", Name("Nm")), ("empty-array", []), ("array", [1, Name("x")]),
-            ("empty-dict", {}), ("null", None), ("bool", True), ("missing-ref", Ref(999)), ("self-ref", Ref(num)), ("cycle-ref", Ref(900))]
+            ("empty-dict", {}), ("null", None), ("bool", True), ("missing-ref", Ref(999)), ("self-ref", Ref(num)), ("cycle-ref", Ref(900)), ("chain-into-cycle-ref", Ref(902))]
 
 
 def apply_fault(objs, num, path, kind, value):
@@ -124,7 +124,7 @@ def apply_fault(objs, num, path, kind, value):
     import copy
     from specs.pdfgen import Stream, Ref
     o = copy.deepcopy(objs)
-    o[900], o[901] = Ref(901), Ref(900)           # a reference cycle for 'cycle-ref'
+    o[900], o[901], o[902] = Ref(901), Ref(900), Ref(900)           # a reference cycle for 'cycle-ref', and a chain that leads into it
     cur = o[num]
     parent, key = None, None
     for p in path:
@@ -199,7 +199,7 @@ def run_entry_points(data, which=(0, 1, 2)):
 @bounded("single-faults-and-truncation", props=["C13"],
          bound="three feature-covering seed documents (classic table + inherited attributes + simple font/Differences + outlines + labels + PNG-predictor image + form; "
                "xref stream + object streams + Type0/ToUnicode/W + inline image + ICC colour space; one image per filter LZW/RunLength/ASCIIHex/ASCII85/LZW+TIFF predictor + "
-               "filter chain with indirect Length). quick: every self-reference and reference-cycle fault plus 1000 seeded single faults out of all (site x {14 replacement values, remove}) and stream-payload faults "
+               "filter chain with indirect Length). quick: every self-reference and reference-cycle fault plus 1000 seeded single faults out of all (site x {15 replacement values, remove}) and stream-payload faults "
                "(truncate, corrupt, empty) + truncation at a stride of 1/120 of the file and at every byte around each structural keyword; thorough: every fault and every truncation point. Entry points extract_text, extract_pages, "
                "extract_text_to_fp(xml); 'work bounded' is observed only as a 10 s alarm (documents are < 5 kB)")
 def _(tier, seed):
@@ -209,6 +209,7 @@ def _(tier, seed):
     failures, evals, kinds = [], 0, set()
     seen_loc = set()
     cases, trunc = [], []
+    hangs = 0
     for nm, m in models.items():
         base = write_model(m)
         r = run_entry_points(base)
@@ -235,8 +236,8 @@ def _(tier, seed):
         trunc.extend((nm, None, None, "truncate-file", cut, None) for cut in sorted(cuts))
     if tier == "quick":
         # every reference fault (self, cycle: the ones that can hang or exhaust the stack) plus a seeded sample of the others
-        always = [c_ for c_ in cases if c_[4] in ("self-ref", "cycle-ref")]
-        rest = [c_ for c_ in cases if c_[4] not in ("self-ref", "cycle-ref")]
+        always = [c_ for c_ in cases if c_[4] in ("self-ref", "cycle-ref", "chain-into-cycle-ref")]
+        rest = [c_ for c_ in cases if c_[4] not in ("self-ref", "cycle-ref", "chain-into-cycle-ref")]
         rng.shuffle(rest)
         cases = always + rest[:1000]
     cases += trunc
@@ -256,10 +257,13 @@ def _(tier, seed):
         r = run_entry_points(data)
         if r is not None:
             key = (r[1].split(":")[0], r[2])
-            if key in seen_loc:
-                continue                      # one report per leaking site in the library
-            seen_loc.add(key)
-            failures.append(dict(document=nm, fault=desc, entry_point=r[0], error=r[1], where=r[2], pdf=data.hex() if len(data) < 6000 else None))
+            if r[1].startswith("TimeoutError"):
+                hangs += 1
+            if key not in seen_loc:            # one report per leaking site in the library
+                seen_loc.add(key)
+                failures.append(dict(document=nm, fault=desc, entry_point=r[0], error=r[1], where=r[2], pdf=data.hex() if len(data) < 6000 else None))
+            if hangs >= 3:
+                break                          # every further hang costs the full alarm: three are enough to report
     return dict(evaluations=evals, distinct=len(kinds), failures=failures, leaking_sites=len(seen_loc))
 
 
@@ -269,16 +273,26 @@ def _(tier, seed):
 ps = real_module("pdfminer.psparser")
 casting = real_module("pdfminer.casting")
 KINDS = ["int", "negative-int", "real", "bool", "bytes", "text", "list", "tuple", "dict", "null", "name", "keyword", "stream", "ref-to-int", "ref-to-dict", "ref-to-missing",
-         "ref-to-ref-to-bytes", "ref-cycle"]
+         "ref-to-ref-to-bytes", "ref-cycle", "ref-chain-into-cycle"]
 
 
 class Val(T.Sort):
     """any value a damaged document can put where another type is expected"""
     def fresh(self, ctx, name):
         k = ctx.choose(KINDS, "kind")
+        chased = [0]
+
         def ref(n, target):
             o = SObj(pt.PDFObjRef, {"objid": n, "doc": "doc"}, "ref%d" % n)
-            o.f["resolve"] = SymFn(lambda I, default=None, target=target: default if target == "<missing>" else (target() if callable(target) else target), "resolve")
+
+            def resolve(I, default=None, target=target):
+                chased[0] += 1
+                if chased[0] > 24:
+                    # at most 3 references exist: chasing them 24 times means the caller does not terminate
+                    from pyvc.symexec import SymRaise
+                    raise SymRaise(RuntimeError, "non-termination: a structure with at most 3 references was chased more than 24 times")
+                return default if target == "<missing>" else (target() if callable(target) else target)
+            o.f["resolve"] = SymFn(resolve, "resolve")
             return o
         if k == "int":
             v = ctx.fresh_int("i")
@@ -314,11 +328,17 @@ class Val(T.Sort):
             v = ref(4, "<missing>")
         elif k == "ref-to-ref-to-bytes":
             v = ref(4, ref(5, b"xyz"))
-        else:
+        elif k == "ref-cycle":
             cell = {}
             a = ref(4, lambda: cell["b"])
             cell["b"] = ref(5, a)
             v = a
+        else:
+            # 3 -> 4 -> 5 -> 4: the cycle does not pass through the first reference
+            cell = {}
+            a = ref(4, lambda: cell["b"])
+            cell["b"] = ref(5, a)
+            v = ref(3, a)
         KIND_OF[id(v) if not isinstance(v, (int, bool)) and v is not None else ("k", k)] = k
         self.last = k
         ctx.notes.add("value kind: " + k) if hasattr(ctx, "notes") else None
@@ -333,7 +353,7 @@ class Val(T.Sort):
 KIND_OF, LAST = {}, [None]
 _RESOLVED_TYPE = {"int": int, "negative-int": int, "real": float, "bool": bool, "bytes": bytes, "text": str, "list": list, "tuple": tuple, "dict": dict, "null": type(None),
                   "name": "name", "keyword": "kw", "stream": "stream", "ref-to-int": int, "ref-to-dict": dict, "ref-to-missing": type(None), "ref-to-ref-to-bytes": bytes,
-                  "ref-cycle": type(None)}
+                  "ref-cycle": type(None), "ref-chain-into-cycle": type(None)}
 
 
 def _is(v, want):
